@@ -192,6 +192,9 @@ func NewL1(P *Program, c *Cube) *L1 {
 		return 1
 	}
 	e.AppendBound = func(fn *ssa.Function) int { return J }
+	if os.Getenv("VERIF_REALLIST") == "" {
+		e.InstallListStub(func() int { return J })
+	}
 	l.installIntrinsics()
 	return l
 }
@@ -265,6 +268,11 @@ func (l *L1) installIntrinsics() {
 			ic.Return(e, p, Value{recv[1]})
 			return true
 		case "Err":
+			if !l.cancellable() {
+				// no cancellation source in this cube: the read is local
+				ic.Return(e, p, nilIface(B))
+				return true
+			}
 			e.park(p) // reading the context's state is a synchronisation point
 			return true
 		}
@@ -338,6 +346,10 @@ func (l *L1) installIntrinsics() {
 			return vs
 		},
 	}
+}
+
+func (l *L1) cancellable() bool {
+	return l.Cube.PreCanc || l.Cube.Timer || has(l.Cube.Outcomes, OutCancel)
 }
 
 func (l *L1) effN() int {
@@ -581,6 +593,8 @@ func (l *L1) Build() {
 	l.S = s
 	s.MaxGen = 2 + c.MaxGoex
 	s.Verbose = os.Getenv("VERIF_VERBOSE") != ""
+	s.SymmetricPeers = os.Getenv("VERIF_NOSYM") == ""
+	s.OneHot = os.Getenv("VERIF_NOONEHOT") == ""
 	s.Start(entry, nil)
 	// environment processes
 	if c.Timer {
@@ -608,7 +622,10 @@ func (l *L1) Build() {
 	}
 	K := c.K
 	if K == 0 {
-		K = 8*c.J() + 2*l.effN() + 10 + 2*c.Ticks
+		K = 8*c.J() + l.effN() + 8 + 2*c.Ticks
+		if !l.cancellable() {
+			K -= c.J() + 1
+		}
 		if c.Timer {
 			K++
 		}
